@@ -21,8 +21,12 @@ REPO = os.environ.get('BRONZEBEARD_REPO', '/repo')
 def run_one(prop, ent, tier='quick', extra=()):
     d = tempfile.mkdtemp(prefix='bbmut_')
     try:
-        shutil.copytree(os.path.join(REPO, 'bronzebeard'), os.path.join(d, 'bronzebeard'))
-        for e in ([ent] if 'old' in ent else ent['edits']):
+        shutil.copytree(os.path.join(REPO, 'bronzebeard'), os.path.join(d, 'bronzebeard'), ignore=shutil.ignore_patterns('__pycache__'))
+        if 'patch' in ent:
+            pr = subprocess.run(['patch', '-p1', '-s', '-d', d, '-i', ent['patch']], capture_output=True, text=True)
+            if pr.returncode != 0:
+                return {'name': ent['name'], 'status': 'edit-does-not-apply', 'lines': [pr.stdout[-200:]]}
+        for e in ([] if 'patch' in ent else ([ent] if 'old' in ent else ent['edits'])):
             p = os.path.join(d, e.get('file', ent.get('file', 'bronzebeard/asm.py')))
             s = open(p).read()
             if s.count(e['old']) < 1:
